@@ -3,7 +3,7 @@
  'bound': 'capacity 2..8, history depth 1..2 (or none), prompt "$ ", echo on, one call of vterm_automate_newdata from every steady editor state (automaton state 2, any len/cursor/content/escape phase/browse index/history content within these sizes), input byte from the reduced key alphabet {space, a, ~, [, A, B, C, D, 3, BS, ESC, CR, LF, Ctrl-C} (one run per escape phase ST and key KEY: with the key a constant the symbolic execution walks one branch of the automata); line and history characters printable; all loops unwound completely for these sizes (unwinding assertions)',
  'functions': ['vterm_automate_newdata', 'readline_putchar', 'vt100_left'],
  'params': {'ST': [0, 1, 2, 3], 'KEY': [32, 97, 126, 91, 65, 66, 67, 68, 51, 8, 27, 13, 10, 3]},
- 'unwind': 11,
+ 'unwind': 11, 'cbmc_flags': ['--unwindset', 'vterm_automate_newdata.0:6'],
  'complete_unwinding': 'every loop is bounded by the sizes of the bound: state-machine loop <= 5 rounds, blocks written <= 10 bytes, decimal digits of a one-digit argument, libc models over <= 8 bytes; unwound 11 times with unwinding assertions',
  'clauses': 'screen clause: the bytes handed to write_callback, fed to a VT100 model (spec/c15_vt100_model.h: one row tracked at an arbitrary ghost column, a cursor column) that shows the prompt and the line with the cursor at prompt+cursor, leave it showing the prompt and the NEW line with the cursor at prompt+cursor (after a delivered line / Ctrl-C: a fresh row with just the prompt); no unmodelled byte is written',
  'kf': ['C15_echo_refused', 'C15_updateline_cursor'],
